@@ -44,8 +44,13 @@ func goEnv() []string {
 
 func infra(format string, a ...interface{}) {
 	fmt.Printf("INFRA "+format+"\n", a...)
+	for _, sc := range liveScratch { // os.Exit skips deferred clean-ups: leave no scratch tree behind
+		sc.cleanup()
+	}
 	os.Exit(2)
 }
+
+var liveScratch []*scratch
 
 func repoDir() string {
 	if r := os.Getenv("VERIF_REPO"); r != "" {
@@ -131,7 +136,9 @@ func mkScratch(id string) *scratch {
 	if err != nil {
 		infra("mktemp: %v", err)
 	}
-	return &scratch{dir: dir, repo: filepath.Join(dir, "repo")}
+	sc := &scratch{dir: dir, repo: filepath.Join(dir, "repo")}
+	liveScratch = append(liveScratch, sc)
+	return sc
 }
 
 func run(dir string, env []string, name string, args ...string) (string, error) {
